@@ -133,6 +133,7 @@ type c18Machine struct {
 	provider int
 
 	nMultiDue, nMultiDueSameWho, nOracleOK, nOracleDone, nBadBody, nErrResp, nTimeout, nSkipped, nNoBinding int
+	nOracleRefused, nOracleLax                                                                              int
 	nZeroInterval, nLarge, nMeta, nPlainDone, nFeeRefused                                                   int
 }
 
@@ -255,7 +256,7 @@ func (m *c18Machine) applyRequest(op c18Op) error {
 	}
 	consumer := m.addr(op.Who)
 	msg := &randomtypes.MsgRequestRandom{BlockInterval: op.Interval, Consumer: consumer.String(), Oracle: op.Oracle}
-	accept := true
+	accept, noBinding := true, false
 	if op.Oracle {
 		capAmt, ok := sdkmath.NewIntFromString(op.FeeCap)
 		if !ok || !capAmt.IsPositive() {
@@ -264,11 +265,9 @@ func (m *c18Machine) applyRequest(op c18Op) error {
 		msg.ServiceFeeCap = sdk.NewCoins(sdk.NewCoin("stake", capAmt))
 		switch {
 		case !m.bound:
-			accept = false
-			m.nNoBinding++
+			accept, noBinding = false, true
 		case capAmt.BigInt().Cmp(m.c.Balance(consumer, "stake").BigInt()) > 0:
 			accept = false
-			m.nFeeRefused++
 		}
 	}
 	h := m.c.Height()
@@ -276,14 +275,25 @@ func (m *c18Machine) applyRequest(op c18Op) error {
 	if res.Outcome == chain.Panicked || res.Outcome == chain.Overflow {
 		return pbt.Failf("C18/request-panic", "request %+v panicked: %v", op, res.Panic)
 	}
-	if !accept {
-		if res.Outcome == chain.OK {
-			return pbt.Failf("C18/oracle-request-without-service", "oracle request %+v accepted although no provider is bound or the fee cap exceeds the balance", op)
+	// The preconditions of an oracle request (a bound provider, a fee cap within the balance) belong to the service
+	// module, the property does not state them: the model predicts them (classes), but follows the code if it decides
+	// otherwise. A plain request has no precondition.
+	if res.Outcome != chain.OK {
+		if !op.Oracle {
+			return pbt.Failf("C18/request-refused", "plain request %+v refused: %v", op, res)
+		}
+		switch {
+		case accept:
+			m.nOracleRefused++
+		case noBinding:
+			m.nNoBinding++
+		default:
+			m.nFeeRefused++
 		}
 		return m.check()
 	}
-	if res.Outcome != chain.OK {
-		return pbt.Failf("C18/request-refused", "request %+v refused: %v", op, res)
+	if !accept {
+		m.nOracleLax++
 	}
 	m.asked[op.Who] = true
 	r := &c18Req{id: c18ReqID(h, consumer.String()), consumer: consumer.String(), who: op.Who, h: h, due: h + int64(op.Interval),
@@ -624,6 +634,8 @@ func (m *c18Machine) Classify() (bool, []string) {
 	add(m.nSkipped > 0, "oracle-fee-cap-below-price")
 	add(m.nNoBinding > 0, "oracle-without-binding-refused")
 	add(m.nFeeRefused > 0, "oracle-fee-cap-above-balance-refused")
+	add(m.nOracleRefused > 0, "oracle-request-unexpectedly-refused")
+	add(m.nOracleLax > 0, "oracle-request-unexpectedly-accepted")
 	add(m.nZeroInterval > 0, "interval-0")
 	add(m.nLarge > 0, "large-interval-stays-queued")
 	add(m.nMeta > 0, "metamorphic-branch")
